@@ -65,8 +65,11 @@ def run(ck):
         for _ in range(20000):
             size, dst, ow, mode = rng.choice(sizes), rng.choice(dsts), rng.randint(0, 1), rng.choice(modes)
             add("reg", size, dst, ow, mode + rng.choice(extra) + rng.choice(extra))
+    # the same scenarios with descriptor 0 free, so that the source is opened as descriptor 0 (every eighth, and all the error paths)
+    lines += ["fd0 " + l for i, l in enumerate(lines) if i % 8 == 0 or " dir " in l or l.split()[1] in ("dir", "fifo", "fifo0", "missing") or " same " in l]
     hist = [lines[i:i + 500] for i in range(0, len(lines), 500)]
     ck.sample(lines[12:15]); ck.sample(lines[-2:])
     for l in lines:
+        if l.startswith("fd0 "): ck.hist("fd0-free"); continue
         for t in l.split()[6:]: ck.hist(t.split("#")[0])
     ck.kcompare("k", exe, "c14", hist, keep_head=0, impl_args=[scratch], what="zix_copy_file differs from the model under injected I/O outcomes")
